@@ -233,6 +233,9 @@ def r15_3(run):
                     if not is_global:
                         continue  # a local of the same name
                     ok = fi.short in allowed
+                    if not ok:
+                        from .util import owner_closure
+                        ok = fi.qualname in owner_closure(run, {"mygrad." + k for k in allowed})
                     run.ob("R15.3", loc(mod, node), fi.short, f"write of switch {sw}", ok,
                            "state setter / turn_memory_guarding_*" if ok else f"{sw} written outside its setters: scopes cannot restore it")
     # writes through a module attribute from anywhere
